@@ -506,11 +506,16 @@ class Queue(Greenlet):
         self.wake.clear()
         self.queued_lock.acquire()
         try:
-            for entry in self.queued:
-                self._pool_spawn('store', self._dequeue, entry[1])
+            # The timetable is emptied, ids included, before anything is
+            # spawned: a flushed message that fails again must be let back
+            # into the timetable, and spawning on a full pool yields.
+            entries = self.queued
             self.queued = []
+            self.queued_ids = set()
         finally:
             self.queued_lock.release()
+        for entry in entries:
+            self._pool_spawn('store', self._dequeue, entry[1])
 
     def kill(self):
         """This method is used by |Queue| and |Queue|-like objects to properly
